@@ -12,7 +12,8 @@ cd /verif
 # the lanes run a snapshot of /verif taken now, so that /verif may be edited while they work
 SNAP=/tmp/sweep-verif
 rsync -a --delete --exclude target --exclude .git --exclude evidence --exclude replays /verif/ $SNAP/
-ids=$(ls -d seeded/$GLOB/ 2>/dev/null | xargs -n1 basename | sort)
+# (the glob argument may hold several patterns separated by blanks)
+ids=$(cd seeded && ls -d $GLOB 2>/dev/null | grep -v SWEEP | sort)
 mkdir -p /tmp/sweep-results
 rm -f /tmp/sweep-results/*
 lane() {
